@@ -121,6 +121,9 @@ impl Prop for C15 {
     fn assumptions(&self) -> Vec<String> {
         vec!["allocation failure is not injected (Rust aborts on OOM); the allocator seam only measures".into(), "the file system under the spill file is real, in a private directory removed after the run".into()]
     }
+    fn prod_digest_comparable(&self) -> bool {
+        true
+    }
     fn runs(&self, tier: Tier) -> u64 {
         match tier {
             Tier::Quick => 16,
